@@ -63,7 +63,7 @@ CLAIMED = {
   technique="static analysis: outcome/marker path exploration over go/cfg, registry agreement of the WAL entry family, exhaustive predicate evaluation over weak orderings, lock balance exploration",
   ref="§9 C10"),
  "C19": dict(
-  text="Structural necessary conditions of safe concurrent operation: every sync.Mutex/RWMutex acquisition in the anchored packages is released on every path before the function returns or covered by a deferred release (two intentional hand-offs are frozen rows with companion obligations); the lock-class graph 'M may be acquired while L is held' (with callee summaries) is acyclic; check-then-act under one lock for field creation (re-read after taking the mutex, existing type compared, update derived from the re-read map) and one hinted-handoff processor per queue; published metadata is immutable (clone completeness and value-snapshot rule shared with C07); variables captured by the coordinator's fan-out goroutines are written only under a mutex; connection-pool tokens are paired; cache snapshot, closed-segment list and segment roll happen in one critical section that excludes writers.",
+  text="Structural necessary conditions of safe concurrent operation: every sync.Mutex/RWMutex acquisition in the anchored packages is released on every path before the function returns or covered by a deferred release (two intentional hand-offs are frozen rows with companion obligations); the lock-class graph 'M may be acquired while L is held' (with callee summaries) is acyclic; check-then-act under one lock for field creation (re-read after taking the mutex, existing type compared, update derived from the re-read map) and one hinted-handoff processor per queue; published metadata is immutable (clone completeness and value-snapshot rule shared with C07); variables captured by the coordinator's fan-out goroutines are written only under a mutex; connection-pool tokens are paired; cache snapshot, closed-segment list and segment roll happen in one critical section that excludes writers; a guarded-by table (hh.Service.processors, tsm1.FileStore.files, tsdb.Store.shards/sfiles, inmem.Index.measurements/series, query.TaskManager.queries): every access in the struct's methods happens with the mutex held, directly or through callers that all hold it.",
   note="Does not decide data-race freedom under every schedule (no sound alias analysis is available; locks are identified by access path and class), visibility of acknowledged writes to reads, or liveness.",
   technique="static analysis: exact per-path lock balance exploration, lock-class order graph (Tarjan SCC) with callee summaries, outcome/def facts for check-then-act, held-lock sets at captured-variable writes",
   ref="§9 C19"),
